@@ -40,11 +40,13 @@ def insertStr (x : String) : List String → List String
 
 def sortStrs (l : List String) : List String := l.foldr insertStr []
 
-/-- canonical key of `sig.ToBytes()` -/
+/-- canonical key of `sig.ToBytes()`; since `fix:` 2c93c32 the bytes of a multi-signature name every
+part's signer and length (before, they were the bare concatenation of the parts: the same for other
+signer labels) -/
 def sigKey : Option Sig → String
   | none => "nil"
   | some (.multi _ []) => "nil"     -- an empty multi-signature serialises to no bytes, like no signature
-  | some (.multi _ es) => "m[" ++ joinWith "," (es.map (fun e => toString e.bytes)) ++ "]"
+  | some (.multi _ es) => "m[" ++ joinWith "," (es.map (fun e => s!"{e.claimed}:{e.bytes}")) ++ "]"
   | some (.bls a j _) => "b[" ++ joinWith "," (sortStrs (a.map atomKey)) ++ "|" ++ joinWith "," (sortStrs (j.map toString)) ++ "]"
 
 def qcKey (q : QC) : String := s!"{q.view}:{q.hash}:{sigKey q.sig}"
